@@ -180,7 +180,8 @@ def check_creation(ctx: Ctx):
         for n, f in st._file_store.items():
             files_out.append(enc_text(n) + "=" + ("B" if not isinstance(f, IWAFile) else "+".join(str(a.header.identifier) for a in f.chunks[0].archives) or "-"))
         comps_out = [f"{c.identifier}/{enc_text(c.locator)}/{enc_text(c.preferred_locator)}/" +
-                     ("+".join(str(e.component_identifier) for e in c.external_references) or "-") for c in meta.components]
+                     ("+".join(f"{e.component_identifier}:{e.object_identifier}:{int(bool(e.is_weak))}" for e in c.external_references) or "-")
+                     for c in meta.components]
         keys = list(st._objects.keys())
         req.append(f"ostore hist {last0} {len(ids0)} " + " ".join(map(str, ids0)) + f" {len(files_desc)} " + " ".join(files_desc) +
                    f" {len(comps_desc)} " + " ".join(comps_desc) + " " + " ".join(ops))
